@@ -4,6 +4,12 @@ Merges the per-seed evaluation files into /verif/seeded/<id>/meta.json ("checks"
 /verif/seeded/MATRIX.md."""
 import json, os, sys, glob
 rows = {}
+# base: the rows recorded in the committed meta.json files (earlier matrix runs)
+for mp in glob.glob("/verif/seeded/*/meta.json"):
+    sid = os.path.basename(os.path.dirname(mp))
+    for p, v in (json.load(open(mp)).get("checks") or {}).items():
+        rc = {"VIOLATION": 1, "inconclusive": 2}.get(v.get("verdict"), 0)
+        rows.setdefault(sid, {})[p] = {"rc": rc, "kinds": v.get("kinds", []), "wall_s": v.get("wall_s")}
 for base in sys.argv[1:]:
     for f in glob.glob(os.path.join(base, "*", "eval_quick_seed1.json")):
         sid = os.path.basename(os.path.dirname(f))
